@@ -339,7 +339,16 @@ class ValueGen:
             args = [self.evalarg(a, ps, fs) for a in f.get("natArgs") or []]
             t = self.ins[f["type"]]
             if t["kind"] == "prim":
-                fs.append(self.prim(t, usage.get(i), depth))
+                v = self.prim(t, usage.get(i), depth)
+                if usage.get(i) is not None and v[0] == "n" and depth < self.max_depth:
+                    # distinct # fields of one struct get distinct values (when they are referenced at all), so
+                    # that a size / mask / template argument taken from the WRONG field changes the encoding
+                    taken = {fs[j][1] for j in usage if j < len(fs) and fs[j] is not None and fs[j][0] == "n"}
+                    for _ in range(4):
+                        if v[1] not in taken:
+                            break
+                        v = self.prim(t, usage.get(i), depth)
+                fs.append(v)
             else:
                 fs.append(self.value(f["type"], args, depth + 1))
         return fs
